@@ -6,6 +6,7 @@ import threading
 
 import effects
 import sched
+import core
 from core import Case, call_impl, enc, enc_b, enc_s, psec, REPO, LEAN_DIR, snapshot
 from props.tr31util import VERS, rb, rs, rand_blocks, make_header, tr31, UNWRAP_TOK, clone_header
 from props.cardutil import digits
@@ -55,6 +56,15 @@ def workload(rng, n):
             h = make_header(rng, ver, rand_blocks(rng, 2))
             gens[(ver, j)] = (kbpk, tr31.wrap(kbpk, h, rb(rng, 16)))
             items.append(("tr31.unwrap", gens[(ver, j)], "tr31", UNWRAP_TOK))
+    # rejected calls whose byte arguments are the caller's mutable buffers (a rejected call must leave them as they were, and usable)
+    for _ in range(3):
+        items.append(("des.encrypt_tdes_ecb", (bytearray(rb(rng, 16)), bytearray(rb(rng, rng.choice((7, 12, 17))))), "plain", None))
+        items.append(("aes.decrypt_aes_cbc", (bytearray(rb(rng, 16)), rb(rng, 16), bytearray(rb(rng, rng.choice((15, 20, 33))))), "plain", None))
+        items.append(("aes.encrypt_aes_ecb", (bytearray(rb(rng, rng.choice((8, 15, 20)))), bytearray(rb(rng, 32))), "plain", None))
+        items.append(("mac.generate_cbc_mac", (rb(rng, rng.choice((5, 12, 20))), bytearray(rb(rng, rng.randrange(9, 40))), rng.choice((1, 2, 3)), None, A.DES), "plain", None))
+        items.append(("mac.generate_cbc_mac", (rb(rng, 16), bytearray(rb(rng, rng.randrange(9, 40))), 4, None, A.AES), "plain", None))
+        items.append(("mac.generate_retail_mac", (rb(rng, 7), rb(rng, 8), bytearray(rb(rng, rng.randrange(9, 30))), 1, None), "plain", None))
+        items.append(("pinblock.decipher_pinblock_iso_4", (rb(rng, 16), bytearray(rb(rng, rng.choice((15, 17, 32)))), "1234567890123"), "plain", None))
     for _ in range(n):
         k = rng.randrange(22)
         dk = rb(rng, rng.choice((8, 16, 24)))
@@ -159,6 +169,9 @@ def generate(rng, tier, seed):
         o2 = ("ok", enc(r2.value) if tok is None else tok(r2.value)) if r2.ok else ("err", r2.err)
         if o1 != o2:
             c.fail("the same call returned a different result when repeated")
+        locked = core.buffers_locked(args)      # while `r` and `r2` (results, exceptions with their tracebacks) are still held
+        if locked:
+            c.fail(f"a bytearray argument is left locked against resizing after the call {'returned' if r.ok else 'raised ' + r.err} ({locked})")
         expected.append(plain_outcome(it))
         yield c
     # (i') wrap is randomised, but it takes a Header object the caller keeps: the object must be exactly as before afterwards - fields,
